@@ -11,7 +11,7 @@ pd = Path(sys.argv[1]).resolve(); prop = sys.argv[2]
 wt = Path("/tmp/vwt") / ("dbg_" + hashlib.md5(str(pd).encode()).hexdigest()[:8])
 if not wt.exists():
     subprocess.run(["git", "-C", "/repo", "worktree", "add", "-q", "--detach", str(wt), "HEAD"], check=True)
-    for cand in ["HEAD", "2c61668", "b59310b", "8fb63a3", "1e5babd", "cc14e90"]:
+    for cand in ["HEAD", "51ed23f", "2c61668", "b59310b", "8fb63a3", "1e5babd", "cc14e90"]:
         subprocess.run(["git", "-C", str(wt), "checkout", "-q", "--detach", cand], check=True)
         if subprocess.run(["git", "-C", str(wt), "apply", "--whitespace=nowarn", str(pd / "patch.diff")]).returncode == 0:
             print("applied on", cand); break
